@@ -678,6 +678,9 @@ func child(mode string, in json.RawMessage) any {
 	if mode == "bighost" {
 		return childBig(in)
 	}
+	if mode == "namedfixed" {
+		return childNamed(in)
+	}
 	var tc echoCase
 	if err := json.Unmarshal(in, &tc); err != nil {
 		return &caseResult{Inconclusive: "bad-case"}
